@@ -57,7 +57,7 @@ class Env:
 
     # -- hooks used by models.dispatch
     def override(self, engine, st, callee, args, dest_ty):
-        if callee.endswith('route::Activity::retrieve_job'):
+        if callee.endswith('Activity::retrieve_job'):
             # jobs in the templates are single jobs (no multi-job root link): Some(Job::Single(arc))
             act = deref_all(args[0])
             job = self.field(act, 'route::Activity', 'job')
